@@ -300,6 +300,9 @@ var (
 func openFindings() map[string]bool {
 	findingsOnce.Do(func() {
 		findingsOpen = map[string]bool{}
+		if os.Getenv("VERIF_IGNORE_KNOWN") != "" { // to re-derive a finding's minimal program
+			return
+		}
 		data, err := os.ReadFile(filepath.Join(root(), "known_findings.json"))
 		if err != nil {
 			return
